@@ -12,6 +12,7 @@
 mod alloc;
 mod cc14;
 mod common;
+mod nrpn;
 mod rng;
 
 use common::*;
@@ -21,6 +22,7 @@ use std::io::{BufRead, Write};
 pub fn exec(tag: i64, inp: &[i64]) -> Vec<i64> {
     match tag {
         70 | 71 | 80 => cc14::exec(tag, inp),
+        90 | 100 | 101 | 110 => nrpn::exec(tag, inp),
         _ => vec![-97],
     }
 }
@@ -29,6 +31,9 @@ fn gen(prop: &str, tier: Tier, seed: u64, em: &mut Emitter) {
     match prop {
         "C07" => cc14::gen_c07(tier, seed, em),
         "C08" => cc14::gen_c08(tier, seed, em),
+        "C09" => nrpn::gen_c09(tier, seed, em),
+        "C10" => nrpn::gen_c10(tier, seed, em),
+        "C11" => nrpn::gen_c11(tier, seed, em),
         _ => {
             eprintln!("unknown property {}", prop);
             std::process::exit(2);
